@@ -1,6 +1,7 @@
 (* C01 property theorems (reference semantics meta-theory and pipeline-stage theorems). *)
 From Coq Require Import ZArith String List.
 From SV Require Import Core.Syntax Core.Values Core.Sem Core.SemProofs.
+From SV Require Import Core.Slice Core.SliceProofs Scope.Tree Scope.Model Scope.Spec Scope.Proofs.
 Import ListNotations.
 Open Scope string_scope.
 Open Scope Z_scope.
@@ -19,6 +20,80 @@ Proof. exact exec_fuel_mono. Qed.
 Theorem C01_run_program_fuel_mono : forall n m prog tr o, (n <= m)%nat ->
   run_program n prog = (tr, o) -> o <> NoFuel -> run_program m prog = (tr, o).
 Proof. exact run_program_fuel_mono. Qed.
+
+(* ---- pipeline-stage theorems: slicing (values/index.rs) and name resolution (scope.rs) ---- *)
+(* ---- slicing: the model of values/index.rs equals the declarative slice ---- *)
+Theorem C01_slice_impl_eq_spec : forall (A : Type) (xs : list A) (start stop stride : option Z),
+  Slice.apply_slice xs start stop stride = Slice.slice_spec xs start stop stride.
+Proof. exact SliceProofs.apply_slice_eq_spec. Qed.
+
+Theorem C01_slice_indices_bounds : forall len start stop stride a b s,
+  0 <= len ->
+  Slice.convert_slice_indices len start stop stride = Some (a, b, s) ->
+  s = SliceProofs.stride_of stride /\ s <> 0 /\
+  SliceProofs.clamp_of s <= a <= len + SliceProofs.clamp_of s /\
+  SliceProofs.clamp_of s <= b <= len + SliceProofs.clamp_of s.
+Proof. exact SliceProofs.convert_slice_indices_bounds. Qed.
+
+Theorem C01_slice_spec_explicit : forall (A : Type) (d : A) (xs : list A) start stop stride a b s,
+  Slice.convert_slice_indices (Z.of_nat (length xs)) start stop stride = Some (a, b, s) ->
+  let n := SliceProofs.slice_len a b s in
+  Slice.slice_spec xs start stop stride =
+    Some (map (fun m => nth (Z.to_nat (a + Z.of_nat m * s)) xs d) (seq 0 (Z.to_nat n))) /\
+  0 <= n <= Z.of_nat (length xs) /\
+  (forall m, 0 <= m < n -> 0 <= a + m * s < Z.of_nat (length xs)).
+Proof. exact SliceProofs.slice_spec_explicit. Qed.
+
+Theorem C01_slice_length : forall (A : Type) (xs r : list A) start stop stride a b s,
+  Slice.convert_slice_indices (Z.of_nat (length xs)) start stop stride = Some (a, b, s) ->
+  Slice.apply_slice xs start stop stride = Some r ->
+  Z.of_nat (length r) = SliceProofs.slice_len a b s.
+Proof. exact SliceProofs.slice_length. Qed.
+
+Theorem C01_slice_defined_iff_stride_nonzero : forall (A : Type) (xs : list A) start stop stride,
+  SliceProofs.stride_of stride <> 0 -> exists r, Slice.apply_slice xs start stop stride = Some r.
+Proof. exact SliceProofs.apply_slice_defined. Qed.
+
+Theorem C01_convert_index_python : forall x len,
+  Slice.convert_index x len = if andb (- len <=? x) (x <? len) then Some (x mod len) else None.
+Proof. exact SliceProofs.convert_index_python. Qed.
+
+Theorem C01_convert_index_spec : forall x len i,
+  Slice.convert_index x len = Some i -> 0 <= i < len /\ (i = x \/ i = len + x).
+Proof. exact SliceProofs.convert_index_spec. Qed.
+
+(* ---- name resolution: the resolver of scope.rs equals the lexical rule ---- *)
+Theorem C01_resolve_alg_eq_decl : forall globals prog,
+  Proofs.alg_view (fst (Model.resolve_prog globals prog)) =
+  Proofs.decl_view (Spec.resolve_prog_decl globals prog).
+Proof. exact Proofs.resolve_alg_eq_decl. Qed.
+
+(* the same in any lexical context, from any resolver state related to it (the form used compositionally) *)
+Theorem C01_resolve_sim : forall mods globals t ctx st o st', Proofs.Inv ctx st ->
+  Model.a_sk mods globals t st = (o, st') ->
+  Proofs.Inv ctx st' /\ Proofs.alg_view o = Proofs.decl_view (Spec.d_sk mods globals ctx t).
+Proof. exact Proofs.sim. Qed.
+
+Theorem C01_def_scope_names_spec : forall ps body x,
+  In x (Tree.def_scope_names ps body) <-> In x (map param_name ps) \/ In x (body_names body).
+Proof. exact Proofs.def_scope_names_spec. Qed.
+
+Theorem C01_module_names_spec : forall prog x,
+  In x (Tree.module_names prog) <-> In x (body_names prog).
+Proof. exact Proofs.module_names_spec. Qed.
+
+Theorem C01_param_slots_first : forall d ps body,
+  NoDup (map param_name ps) ->
+  let sc := Model.init_scope d (map param_name ps) (Tree.def_scope_names ps body) in
+  Model.sn_pcount sc = length ps /\
+  firstn (length ps) (Model.sn_used sc) = map param_name ps /\
+  (forall i x, nth_error (map param_name ps) i = Some x -> Proofs.view_of sc x = Some (i, (d, x))).
+Proof. exact Proofs.param_slots_first. Qed.
+
+Theorem C01_captured_only_if_nested_use : forall globals prog b,
+  In (Model.CapLocal b) (Model.st_captured (snd (Model.resolve_prog globals prog))) ->
+  In (snd b, Spec.BFrame (fst b) true) (Spec.resolve_prog_decl globals prog).
+Proof. exact Proofs.captured_only_if_nested_use. Qed.
 
 Example C01_runs_nonvacuous :
   run_program 50 [SAssign 1 (TVar "x") (EList [EInt 1; EInt 2]);
